@@ -128,27 +128,30 @@ func (s *TimerQueue) RunEvery(interval int, r Runnable) int {
 
 func (s *TimerQueue) schedule(deadline, period int64, r Runnable) int {
 	s.guard.Lock()
-	defer s.guard.Unlock()
-
 	var id = s.nextID()
 	var node = newTimerNode(id, deadline, period, r)
-	s.pendingAdd <- node
 	s.refer[id] = node
+	s.guard.Unlock()
 
+	// send without holding the mutex: the worker needs it to expire timers
+	s.pendingAdd <- node
 	return id
 }
 
 // 取消一个timer
 func (s *TimerQueue) Cancel(id int) bool {
 	s.guard.Lock()
-	defer s.guard.Unlock()
-
-	if node, found := s.refer[id]; found {
-		s.pendingDel <- node
+	var node, found = s.refer[id]
+	if found {
 		delete(s.refer, id)
-		return true
 	}
-	return false
+	s.guard.Unlock()
+
+	if found {
+		// send without holding the mutex: the worker needs it to expire timers
+		s.pendingDel <- node
+	}
+	return found
 }
 
 // 当前时间
